@@ -464,7 +464,9 @@ type ClusterOpts struct {
 	Listen      bool
 	InformerTTL time.Duration
 	Mutate      func(cfg *ipfscluster.Config)
-	BeforeStart func(m *Monitor) // configure the fake monitor before the cluster starts publishing
+	BeforeStart func(m *Monitor)      // configure the fake monitor before the cluster starts publishing
+	Host        host.Host             // use this host instead of creating one
+	Consensus   ipfscluster.Consensus // use this consensus component instead of the fake
 }
 
 // ClusterFixture is a real Cluster with harness components.
@@ -496,7 +498,10 @@ func NewCluster(o ClusterOpts) *ClusterFixture {
 	if o.InformerTTL == 0 {
 		o.InformerTTL = 2 * time.Hour
 	}
-	h := NewHost(o.Key, o.Listen)
+	h := o.Host
+	if h == nil {
+		h = NewHost(o.Key, o.Listen)
+	}
 	f := &ClusterFixture{S: o.Shared, Host: h, ID: h.ID(), cancel: cancel}
 	cfg := &ipfscluster.Config{}
 	cfg.Default()
@@ -550,7 +555,11 @@ func NewCluster(o ClusterOpts) *ClusterFixture {
 	if err != nil {
 		panic(err)
 	}
-	c, err := ipfscluster.NewCluster(ctx, h, nil, cfg, dssync.MutexWrap(ds.NewMapDatastore()), f.Cons,
+	var cons ipfscluster.Consensus = f.Cons
+	if o.Consensus != nil {
+		cons = o.Consensus
+	}
+	c, err := ipfscluster.NewCluster(ctx, h, nil, cfg, dssync.MutexWrap(ds.NewMapDatastore()), cons,
 		[]ipfscluster.API{f.API}, f.IPFS, f.Tracker, mon, alloc, []ipfscluster.Informer{f.Inf}, tracer)
 	if err != nil {
 		panic(err)
